@@ -78,7 +78,9 @@ CHECKS = {
         "the statement is not vacuous), repeated queries agree, and inserting extra queries anywhere in any history leaves all later results "
         "and the final state unchanged (extra_queries_irrelevant, induction over histories). Tie: state-level correspondence (deep attribute "
         "snapshots incl. RandomState.get_state()) before/after every call on all exported stream strategies x managers; twin histories with "
-        "extra queries (also with other training data / weights / fit_clf / utility_weight than the regular calls)."
+        "extra queries (also with other training data / weights / fit_clf / utility_weight than the regular calls). The density window of "
+        "StreamDensityBasedAL (window_, min_dist_, _calculate_ldf) is modelled (Core/Density.lean; C03dens: density_query_restores, step_aligned) "
+        "and compared bit-exactly after every call."
         " Second tie (translation): harness/translate/pystream.py re-translates query_by_utility / query / update of every budget manager and both baseline strategies from the current Python source into Lean (Gen/StreamBM.lean) on every run; Lemmas/StreamGen.lean proves each translated method equal to the hand-written model for all inputs (19 bridging theorems), Props/StreamGen.lean transfers the property theorems to the translated managers (gen_* theorems via the simulation lemma Sim.run_chunked); the translated model is also executed bit-exactly against the real classes (skagendriver).",
         design="§4 C03",
         technique="Lean 4 proof (purity + induction over histories; theorems transferred to a model translated from the Python source on every run) + state-snapshot and bit-exact correspondence",
